@@ -1665,3 +1665,29 @@ Proof.
   - rewrite F2, F1. exact Hf.
   - exists (S (S k)). exact Hk.
 Qed.
+
+(* ------------------------------------------------------------------------------------------ *)
+(* the hypothesis "the locks of a task are different locks" of the progress theorems is needed:
+   a task that names the same lock twice is never handed out, to nobody, whatever the schedule
+   (lock_dependency takes the lock, fails on it the second time, and rolls back) *)
+Lemma same_lock_twice_never_handed : forall cfg s k l, reach cfg s ->
+  dep0 cfg k = Some l -> dep1 cfg k = Some l ->
+  forall t, ~ In k (htasks (thr s t)).
+Proof.
+  intros cfg s k l Hr D0 D1 t Hin.
+  pose proof (lock_held_once cfg s Hr t) as Hnd.
+  rewrite (NoDup_count_occ Nat.eq_dec) in Hnd. specialize (Hnd l).
+  unfold tlocks in Hnd. rewrite !count_occ_app in Hnd.
+  rewrite (count_flat_remove1 (deps cfg) k (htasks (thr s t)) l Hin) in Hnd.
+  unfold deps at 1 in Hnd. rewrite D0, D1 in Hnd. cbn [count_occ] in Hnd.
+  destruct (Nat.eq_dec l l); [|congruence]. lia.
+Qed.
+
+Lemma same_lock_twice_never_returned : forall cfg s t c o k l, reach cfg s -> wf_choice s t c = true ->
+  dep0 cfg k = Some l -> dep1 cfg k = Some l ->
+  e_ret (snd (step cfg s t c)) <> Some (o, RTask (Some k)).
+Proof.
+  intros cfg s t c o k l Hr W D0 D1 E.
+  apply (same_lock_twice_never_handed cfg (fst (step cfg s t c)) k l (reach_step' _ _ _ _ Hr W) D0 D1 t).
+  rewrite thr_step. rewrite step_snd in E. eapply ret_task_in_view; eauto.
+Qed.
